@@ -506,6 +506,7 @@ def oracle(run, deep):
                          {"statement": t, "document": di, "all": picks, "schedule": used, "observed": repr(canon(res))[:500],
                           "required": repr(base[(t, di)])[:500], "theorem": "C18_interleave / C18_any_order"})
                 return
+    bare_prepared_contexts(run)
     free_running(run, stmts, docs, shared, logs, base, seconds=(4 if run.quick and not deep else 25))
     what = None
     if c09.ctx_snapshot([shared]) != snap_ctx:
@@ -518,6 +519,85 @@ def oracle(run, deep):
         what = "a yaql module global changed"
     if what:
         run.fail("violation", "shared state was modified by evaluation: %s" % what, {"pool": texts})
+    # the module-level route keeps its own process-wide cache (module globals of yaql/__init__.py, by design): it is
+    # exercised after the shared-state comparison above
+    import evalrace
+    evalrace.run_races(run, "C18")
+
+
+BARE_POOL = ["$.l.select($ * 2).where($ > 2).toList()", "$.l.sum() + $.n", "$.t.toUpper()", "$.l.orderBy($).toList()",
+             "$.d.get(a) + $.n * 2", "sq($.n) + $.l.len()", "[1, 2].select(sq($)).toList()", "$.l.len()", "$.n"]
+
+
+def bare_context():
+    """A prepared context that a host assembles itself from the library modules - no `#finalize`, no `#iter` - plus
+    functions defined in yaql: the other documented way to build one (yaql.create_context is only a convenience)."""
+    from yaql.language import contexts, conventions
+    from yaql.standard_library import boolean, branching, collections, common, math, queries, strings, system
+    ctx = contexts.Context(convention=conventions.CamelCaseConvention())
+    system.register(ctx, False)
+    for m in (common, boolean, strings, math, branching):
+        m.register(ctx)
+    collections.register(ctx, False)
+    queries.register(ctx, True)
+    shared = ctx.create_child_context()
+    shared["hv"] = [1, 2, 3]
+    shared.register_function(lambda x: x * x, name="sq")       # nothing is EVALUATED while the context is assembled
+    return shared
+
+
+def chain_of(ctx):
+    out = []
+    while ctx is not None:
+        out.append(ctx)
+        ctx = ctx.parent
+    return out
+
+
+def bare_prepared_contexts(run):
+    """Threads whose evaluations are the FIRST ones ever made on a freshly assembled bare context (no finaliser in the
+    chain): each returns what it returns alone, and every context of the shared chain is unchanged afterwards."""
+    eng = ec.engine()
+    docs = [c09.host_data(), dict(c09.host_data(), n=5, t="banana", l=[5, 5, 1])]
+    stmts = {t: eng(t) for t in BARE_POOL}
+    ref = bare_context()
+    base = {(t, di): canon(make_job(stmts[t], d, ref, {}, False)()) for t in BARE_POOL for di, d in enumerate(docs)}
+    for _ in range(run.n(25, 250)):
+        shared = bare_context()
+        chain = chain_of(shared)
+        snap_ctx, snap_fd = c09.ctx_snapshot(chain), fd_snapshot(shared)
+        k = run.rng.choice([2, 2, 3])
+        picks = [(run.rng.choice(BARE_POOL), run.rng.randrange(len(docs))) for _ in range(k)]
+        jobs = [make_job(stmts[t], docs[di], shared, {}, False) for t, di in picks]
+        counts = [count_steps(make_job(stmts[t], docs[di], bare_context(), {}, False))[0] for t, di in picks]
+        sched = random_merge(run.rng, counts)
+        # the very first steps of all threads are interleaved first
+        sched = list(range(k)) * 2 + sched
+        s = Scheduler(jobs)
+        used = s.run(sched)
+        run.case(("bare", tuple(picks), tuple(used)), nontrivial=True)
+        run.count("bare_context_round")
+        if s.problems:
+            run.fail("violation", "an evaluation did not terminate under a schedule: %s" % s.problems[0],
+                     {"bare_context": True, "statements": picks, "schedule": used})
+            return
+        for (t, di), res in zip(picks, s.results):
+            if canon(res) != base[(t, di)]:
+                run.fail("violation", "bare prepared context: a thread's result differs from the result of the same evaluation run alone",
+                         {"bare_context": True, "statement": t, "document": di, "all": picks, "schedule": used,
+                          "observed": repr(canon(res))[:500], "required": repr(base[(t, di)])[:500]})
+                return
+        # later evaluations on the same context still work, and the chain is what the host built
+        for t, di in picks[:1]:
+            again = canon(make_job(stmts[t], docs[di], shared, {}, False)())
+            if again != base[(t, di)]:
+                run.fail("violation", "bare prepared context: an evaluation AFTER the concurrent ones differs from the evaluation alone",
+                         {"bare_context": True, "statement": t, "document": di, "observed": repr(again)[:500], "required": repr(base[(t, di)])[:500]})
+                return
+        if c09.ctx_snapshot(chain) != snap_ctx or fd_snapshot(shared) != snap_fd:
+            run.fail("violation", "shared state was modified by evaluation: a context of the bare prepared chain gained / lost "
+                                  "variables or functions", {"bare_context": True, "statements": picks, "schedule": used})
+            return
 
 
 def free_running(run, stmts, docs, shared, logs, base, seconds=None):
@@ -552,11 +632,28 @@ def free_running(run, stmts, docs, shared, logs, base, seconds=None):
                  {"statement": bad[0][0], "document": bad[0][1], "observed": bad[0][2], "required": bad[0][3]})
 
 
+class _Probe:
+    def __init__(self, run):
+        self.failed, self.rng, self.quick, self.cov = False, run.rng, True, {}
+
+    def case(self, *a, **k): pass
+    def count(self, *a, **k): pass
+    def note(self, *a, **k): pass
+    def n(self, q, t): return q
+
+    def fail(self, *a, **k):
+        self.failed = True
+
+
 def replay(run, data):
     d = data.get("data", {})
     shared, logs = shared_context()
     eng = ec.engine()
     docs = [c09.host_data(), dict(c09.host_data(), n=5, t="banana", l=[5, 5, 1])]
+    if d.get("bare_context") or d.get("route") == "yaql.eval":
+        probe = _Probe(run)
+        (bare_prepared_contexts if d.get("bare_context") else __import__("evalrace").run_races)(*((probe,) if d.get("bare_context") else (probe, "C18")))
+        return not probe.failed
     if "all" in d and "schedule" in d:
         picks = [tuple(p) for p in d["all"]]
         jobs = [make_job(eng(t), docs[di], shared, logs, False) for t, di in picks]
